@@ -205,6 +205,8 @@ def install(reg):
         if h is not None:
             r = h(e, st, args, kw, node)
             if r is not None: return r
+        if len(args) == 1 and not kw and isinstance(args[0].t, IterT) and isinstance(args[0].z, V) and isinstance(args[0].z.t, ListT):
+            args = [args[0].z]          # dict.items()/keys() listing: sorted() of it is, again, only known to have the same length
         if len(args) == 1 and not kw and isinstance(args[0].t, ListT) and args[0].t.elem != ANY:
             # sorted(list): an (uninterpreted) function of the list content with the same length; nothing else is assumed
             lt = args[0].t; L = e.deref(st, args[0])
